@@ -45,7 +45,7 @@ func (p *propC16) Prepare(seed uint64, tier string) int {
 	p.seed, p.tier = seed, tier
 	p.corpus = corpusFrames(8000, false)
 	p.count = 200000
-	if tier == "thorough" {
+	if isThorough(tier) {
 		p.count = 5000000
 	}
 	return p.count
